@@ -167,6 +167,23 @@ func NewEnv(signed bool, opts ...validation.Option) *Env {
 	return e
 }
 
+// AddDuties registers proposer duties for every validator at slots Slot0..Slot0+span and sync-committee duties
+// for the period, so that proposer / sync-committee messages of honest operators pass the duty rule.
+func (e *Env) AddDuties(span int) {
+	b := e.NetCfg.Beacon
+	for _, v := range e.Vals {
+		if v.Share.BeaconMetadata == nil {
+			continue
+		}
+		idx := v.Share.BeaconMetadata.Index
+		for s := e.Slot0(); s <= e.Slot0()+phase0.Slot(span); s++ {
+			e.Duties.Proposer.Add(b.EstimatedEpochAtSlot(s), s, idx, &eth2apiv1.ProposerDuty{Slot: s, ValidatorIndex: idx}, true)
+		}
+		period := b.EstimatedSyncCommitteePeriodAtEpoch(BaseEpoch)
+		e.Duties.SyncCommittee.Add(period, idx, &eth2apiv1.SyncCommitteeDuty{ValidatorIndex: idx}, true)
+	}
+}
+
 // Slot0 returns the first slot of the base epoch.
 func (e *Env) Slot0() phase0.Slot { return e.NetCfg.Beacon.FirstSlotAtEpoch(BaseEpoch) }
 
